@@ -854,3 +854,68 @@ def run_r4(prog, res, cg):
                     continue        # leaving the interpreter loop: no operands are live any more
                 work.append((s, cur))
     return stat
+
+
+# ------------------------------------------------------------------ R7
+def run_r7(prog, res, cg):
+    """A slot that the type table tells the marker to trace must hold an object (or an immediate)
+    whenever a collection can happen.  Objects copied from the static tables (opcodes, core forms,
+    types) carry C strings in such slots until they are converted; the conversion idiom
+    `F(x) = make(ctx, (char*)F(x))` - and any other may-collect call that is handed `(char*) x->traced_field`
+    - runs a possible collection while the slot still holds the raw pointer."""
+    import tables
+    from tables import Layout
+    stat = res.stat("C02.R7", "no call that may collect is handed a traced slot reinterpreted as a C pointer "
+                    "(the slot would hold a non-object during the collection)", floor=0)
+    rows, _g = tables.type_rows(prog)
+    L = Layout(prog)
+    traced = set()
+    for row in rows:
+        m = row["_member"]
+        if m is None:
+            continue
+        for k in range(row["field_len_base"]):
+            f = L.field_at(m, row["field_base"] + 8 * k)
+            if f is not None:
+                traced.add((m, f[0]))
+    maygc = cg.reaches_any({"sexp_alloc", "sexp_gc"})
+    for fn in prog.all_funcs():
+        if fn.unit.display.startswith("tests/") or not fn.blocks:
+            continue
+        for i, nd in enumerate(fn.nodes):
+            if nd["k"] != "call":
+                continue
+            name = nd.get("o")
+            gc = False
+            if name:
+                f2 = prog.func(name, fn.unit)
+                gc = f2 is not None and f2 in maygc
+            if not gc:
+                continue
+            for a in nd["c"][1:]:
+                # the argument itself is the reinterpreted slot (not a data pointer computed from it)
+                x = a
+                while fn.nodes[x]["k"] == "paren" and fn.nodes[x].get("c"):
+                    x = fn.nodes[x]["c"][0]
+                for x in [x]:
+                    xn = fn.nodes[x]
+                    if xn["k"] != "cast" or not (fn.type(x) or "").replace("const ", "").startswith("char *"):
+                        continue
+                    inner = fn.strip(xn["c"][0])
+                    if fn.nodes[inner]["k"] != "mem" or fn.type(inner) != tables.SEXP_T:
+                        continue
+                    o2, path = fn.mempath(inner)
+                    if len(path) != 3 or path[0] != "value" or (path[1], path[2]) not in traced:
+                        continue
+                    on = fn.nodes[fn.strip(o2)]
+                    if on["k"] == "un" and on.get("o") == "&":
+                        continue          # a row of a static table, not a heap object
+                    stat.sites += 1
+                    stat.obligations += 1
+                    res.add(Finding("C02", "R7.raw-pointer-in-traced-slot", fn.name,
+                                    "%s.%s across %s" % (path[1], path[2], name), fn.where(i),
+                                    "%s passes (char*) %s to %s, which may collect: the slot value.%s.%s is traced by the "
+                                    "marker for this type but still holds a C string (copied from a static table), so a "
+                                    "collection at that call follows a pointer that is not a heap object"
+                                    % (fn.name, fn.txt(inner)[:60], name, path[1], path[2]), unit=fn.unit.display))
+    return stat
